@@ -119,7 +119,8 @@ def gen_grammar(framing, spec):
         for unit in (0xF7, 0x7F, 0x00):
             for fn in (3, 6, 16, 0x83, 0x86, 0x90, 4, 0, 0xFF):
                 if fn == 3 or fn not in (6, 16):
-                    bcs = {(2 * c) & 0xFF, (2 * c - 2) & 0xFF, (2 * c + 2) & 0xFF, 0, 255}
+                    bcs = {(2 * c) & 0xFF, (2 * c - 2) & 0xFF, (2 * c + 2) & 0xFF, (2 * c + 1) & 0xFF, (2 * c - 1) & 0xFF,
+                           (2 * c + 3) & 0xFF, c & 0xFF, (4 * c) & 0xFF, 0, 255}
                     for bc in bcs:
                         for delta in (0, -1, 1, 2, None):
                             present = max(bc + delta, 0) if delta is not None else 0
